@@ -96,10 +96,10 @@ PROPS = {
         "theorems": ["Meddly.CT." + t for t in [
             "ct_trace_sound", "cc_exact", "keys_distinct", "removeAll_empty", "removeStales_clean",
             "no_reuse_while_cached", "lossy_ok", "tracking_sound", "find_accepted"]],
-        "quick": [fam("ctable")],
-        "thorough": [fam("ctable", "asan")],
+        "quick": [fam("ctable"), fam("ctstress")],
+        "thorough": [fam("ctable", "asan"), fam("ctstress", "asan")],
         "leanchecker": ["MeddlyModel.State.ComputeTable"],
-        "level_text": "Specification automaton CT (lossy map: any entry may disappear at any step; a hit is accepted only if it is the most recent add for that key and none of its nodes or its entry type was dead at any time since). Theorems for every accepted trace: ct_trace_sound, cc_exact (cache count = occurrences in live entries), no_reuse_while_cached, lossy_ok (a client that recomputes on a miss observes the same results under EVERY loss schedule as with an empty table). Tie: trace validation of findCT/addCT/removeStales/removeAll against real nodes that are created, released and re-created (handle reuse), under all 4 styles x 3 stale policies x maxSize in {1,1024,2048,default}; plus an end-to-end script of real operations executed under several configurations whose result tables must be identical and equal to the pointwise oracle.",
+        "level_text": "Specification automaton CT (lossy map: any entry may disappear at any step; a hit is accepted only if it is the most recent add for that key and none of its nodes or its entry type was dead at any time since). Theorems for every accepted trace: ct_trace_sound, cc_exact (cache count = occurrences in live entries), no_reuse_while_cached, lossy_ok (a client that recomputes on a miss observes the same results under EVERY loss schedule as with an empty table). Tie: trace validation of findCT/addCT/removeStales/removeAll against real nodes that are created, released and re-created (handle reuse), under all 4 styles x 3 stale policies x maxSize in {1,1024,2048,default}; plus an end-to-end script of real operations executed under several configurations whose result tables must be identical and equal to the pointwise oracle; plus family ctstress: under each of the four table styles thousands of real operations with key shapes of 2 to 5 items (EV+ MULTIPLY/PLUS/MIN/MAX, MT arithmetic and comparisons) over pools of functions sharing key prefixes, warm tables and recycled handles, every result compared with the scalar oracle.",
         "level_note": "NodeLifeOK (a dead node with cache count > 0 stays dead, searched keys mention no dead node) is a hypothesis owed by C06's NodeLife model and is monitored in the trace, not proved here. In unchained styles silent evictions make only an upper bound of the cache count checkable from the trace; exactness there rests on cc = countAllNodeEntries of the real table. lossy_ok is for a flat client, not a recursive apply. Hash quality/performance not modelled.",
         "technique": "Lean 4 proof (trace acceptance + invariants by induction) + trace validation + cross-configuration differential run",
         "partial": ["mark-and-sweep forests (no cache counts) not covered", "recursive apply modelled as flat client in lossy_ok"],
@@ -522,8 +522,8 @@ PROPS = {
                   'Meddly.Reach.satur_eq_lfp_partial',
                   'Meddly.Spec.ReachTables.reachList_spec',
                   'Meddly.Spec.ReachTables.distList_spec'],
-     'quick': [{'family': 'reach', 'flavor': 'plain', 'args': {}}],
-     'thorough': [{'family': 'reach', 'flavor': 'asan', 'args': {}}],
+     'quick': [{'family': 'reach', 'flavor': 'plain', 'args': {'allow': 'F4,F10'}}],   # F4, F10 repaired by fix: commits: no steering
+     'thorough': [{'family': 'reach', 'flavor': 'asan', 'args': {'allow': 'F4,F10'}}],
      'leanchecker': ['MeddlyModel.Ops.Reach', 'MeddlyModel.Spec.ReachTables'],
      'design_ref': 'DESIGN.md §5 C08',
      'level_text': 'Lean theorems over an arbitrary finite state space (any enumeration `states` of a type with decidable equality, any relation, any initial '
